@@ -54,6 +54,8 @@ pub fn run_c12(cfg: &Cfg) {
         (r"(a)(b)(c)(d)(e)(f)(g)(h)(i)(j)(k)", "abcdefghijk"),
         (r"(?<n>\w+) (?<é>\w+)", "ab cd"),
         (r"(?<1x>a)(?<9>b)(c)", "abc"),
+        // internal save slots (look-arounds, a counted hard repeat) are not capture groups
+        (r"(\w+)(?=\d)(?=\d\d)(?:\B.){2}", "a12"),
     ];
     let compiled: Vec<(Regex, &str)> = cases.iter().map(|(p, t)| (Regex::new(p).unwrap(), *t)).collect();
     let expanders = [("d", Expander::default()), ("p", Expander::python())];
